@@ -73,6 +73,11 @@ def worker(args):
     if not ok:
         res.inconclusive.append('pynetdicom2 imported from %s, not from %s' % (path, common.REPO))
     else:
+        if isinstance(spec, dict) and spec.get('debug_logging'):
+            # an application that runs with logging turned up: every logger's DEBUG messages are
+            # built (and thrown away)
+            import logging
+            logging.basicConfig(level=logging.DEBUG, handlers=[logging.NullHandler()], force=True)
         try:
             res = mod.run_shard(spec, args.tier, args.seed)
         except Exception as exc:  # harness failure is never a verdict on the library
